@@ -125,6 +125,7 @@ def _call(args):
         return {"harness_error": f"{type(e).__name__}: {e}\n{traceback.format_exc()}", "cell": jsonable(cell)}
     if isinstance(res, dict):
         res["_wall"] = time.time() - t0
+        res["_cell"] = repr(cell)[:160]
     return res
 
 
@@ -189,6 +190,7 @@ class Ctx:
         self.replays: list[str] = []
         self.deadline = None
         self.guard_failures: list[str] = []
+        self.cell_walls: list = []
         self.quick = tier == "quick"
 
     # -- results coming back from cells ------------------------------------------------------
@@ -203,6 +205,8 @@ class Ctx:
             return
         if "harness_error" in r:
             raise HarnessError(f"worker failed on cell {r.get('cell')}: {r['harness_error']}")
+        if "_wall" in r:
+            self.cell_walls.append((r["_wall"], str(r.get("_cell", ""))[:160]))
         self.evaluations += r.get("evaluations", 0)
         self.nontrivial += r.get("nontrivial", 0)
         self.states += r.get("states", 0)
@@ -287,6 +291,10 @@ class Ctx:
         if not confirmed and self.guard_failures:
             raise HarnessError("vacuity guard failed: " + "; ".join(self.guard_failures))
         wall = time.time() - self.t0
+        if os.environ.get("VERIF_DEBUG"):
+            for w, c in sorted(self.cell_walls, reverse=True)[:5]:
+                print(f"  slow cell {w:.1f}s {c}")
+            print(f"  sum of cell walls {sum(w for w, _ in self.cell_walls):.1f}s over {len(self.cell_walls)} cells")
         cov = {
             "evaluations": int(self.evaluations),
             "distinct_nontrivial": int(self.nontrivial),
